@@ -23,7 +23,9 @@ LEMMAS = {}
 
 
 class Lemma:
-    def __init__(self, name, vars, assumes, goals, props, uses=(), module="chartparse.instrument", note=""):
+    def __init__(self, name, vars, assumes, goals, props, uses=(), module="chartparse.instrument", note="", shift=True, assumptions=()):
+        self.assumptions = list(assumptions)
+        self.shift = shift      # add index-shifted copies of the quantified hypotheses (needed where goals talk about k+1)
         self.name, self.vars, self.assumes, self.goals = name, vars, assumes, goals
         self.props, self.uses, self.module, self.note = props, list(uses), module, note
         LEMMAS[name] = self
@@ -52,7 +54,7 @@ def run_lemma(reg, idx, name, timeout_ms=None, seed=0):
         else:
             ctx = VCtx("lemma:" + name)
             eng = Engine(reg, idx, ctx, None)
-            eng.shift_quantifiers = True
+            eng.shift_quantifiers = lem.shift
             env = {}
             st = State({})
             from pyvc.quant import deep_wf
@@ -67,7 +69,22 @@ def run_lemma(reg, idx, name, timeout_ms=None, seed=0):
                 goal = eng.truth(eng.spec_eval(text, env, st, lem.module), st)
                 obs.append(Obligation(f"lemma:{name}/{gname}", list(st.pc), goal, kind="lemma"))
             axioms = ctx.all_axioms()
-            res["assumptions"] = sorted(ctx.assumptions)
+            res["assumptions"] = sorted(set(ctx.assumptions) | set(lem.assumptions))
+        # vacuity guard: the hypotheses must not be refutable (a contradictory assumption would
+        # 'prove' every goal).  Unknown is the expected answer for quantified hypotheses.
+        if obs and not isinstance(lem, ZLemma):
+            sv = z3.Solver()
+            sv.set("timeout", 3000)
+            for a in axioms:
+                sv.add(a)
+            for p in obs[0].pc:
+                sv.add(p)
+            if sv.check() == z3.unsat:
+                res["status"] = "error"
+                res["reason"] = "vacuous lemma: the assumptions are contradictory"
+                res["seconds"] = time.time() - t0
+                return res
+            res["notes"].append("vacuity guard: the assumptions are not refutable within 3 s")
         for ob in obs:
             discharge(ob, axioms, timeout_ms=timeout_ms, seed=seed)
             d = {"name": ob.name, "kind": ob.kind, "status": ob.status, "backend": ob.backend,
